@@ -340,7 +340,7 @@ Qed.
 End Run.
 
 (* ------------------------------------------------------------------------- unparsable formatter output *)
-Definition fres_of (m : fmode) : fres := match m with FFails => RFailed | FGarbage => RGarbage | FOk => RFormatted end.
+Definition fres_of (m : fmode) : fres := match m with FFails => RFailed | FGarbage => RFailed | FOk => RFormatted end.
 Definition nc_pure (c : config) (f : file) : tkind :=
   let whole := if c_enforce c then true
                else match fres_of (c_fmt c) with RFailed => true | RGarbage => false | RFormatted => f_clean f end in
@@ -355,11 +355,11 @@ Proof.
   destruct b; [exfalso; destruct (Hb eq_refl) as [n [Hn _]]; exact (Hnf n Hn)|].
   destruct m; injection H as <- _; reflexivity.
 Qed.
-Lemma format_call_mode : forall flt m w r w', m <> FGarbage -> format_call flt m w = inl (r, w') -> r <> RGarbage.
+Lemma format_call_mode : forall flt m w r w', format_call flt m w = inl (r, w') -> r <> RGarbage.
 Proof.
-  intros flt m w r w' Hm H. unfold format_call in H.
+  intros flt m w r w' H. unfold format_call in H.
   destruct (tick_spec flt SFormat w) as [[b [E _]]|E]; rewrite E in H; cbn [bind] in H; [|discriminate].
-  destruct b; [injection H as <- _; discriminate|]. destruct m; try congruence; injection H as <- _; discriminate.
+  destruct b; [injection H as <- _; discriminate|]. destruct m; injection H as <- _; discriminate.
 Qed.
 
 Lemma new_code_nofail : forall flt c f w t w', no_fail flt -> new_code flt c f w = inl (t, w') -> t = nc_pure c f.
@@ -377,14 +377,14 @@ Proof.
     + injection H as <- _. reflexivity.
 Qed.
 
-Lemma new_code_mode : forall flt c f w t w', c_fmt c <> FGarbage -> new_code flt c f w = inl (t, w') -> t <> Garb.
+Lemma new_code_mode : forall flt c f w t w', new_code flt c f w = inl (t, w') -> t <> Garb.
 Proof.
-  intros flt c f w t w' Hm H. unfold new_code in H.
+  intros flt c f w t w' H. unfold new_code in H.
   destruct (raising flt (SRead (f_id f)) w) as [[[] w1]|[h w1]]; cbn [bind] in H; [|discriminate].
   assert (G : forall w3, bind (format_call flt (c_fmt c) w3)
                 (fun r w4 => inl (match r with RFailed => Raw | RGarbage => Garb | RFormatted => Fmt end, w4)) = inl (t, w') -> t <> Garb).
   { intros w3 H3. destruct (format_call flt (c_fmt c) w3) as [[r w4]|[h w4]] eqn:E; cbn [bind] in H3; [|discriminate].
-    apply format_call_mode in E; [|exact Hm]. injection H3 as <- _. destruct r; congruence. }
+    apply format_call_mode in E. injection H3 as <- _. destruct r; congruence. }
   destruct (c_enforce c).
   - cbn [bind] in H. exact (G w1 H).
   - destruct (format_call flt (c_fmt c) w1) as [[r w2]|[h w2]]; cbn [bind] in H; [|discriminate].
@@ -411,13 +411,14 @@ Proof.
   - exact (IH w1 w' H f0 Hin).
 Qed.
 
-(* C15 (3): unparsable formatter output is never written: ast.parse of phase A stops the run before the first write.
-   Premise: no second, transient formatter failure on top of a formatter that returns unparsable text. *)
+(* C15 (3): what a misbehaving formatter prints is never written - whatever it does on its calls (fails, or prints with exit status 0
+   something that is not the formatted code) and whatever fault is injected on top: format_code hands back its input instead
+   (repair of finding F-55; before it this needed the premise "no second, transient failure" and did not cover a formatter that
+   misbehaves on one call only). *)
 Theorem no_garbage_written : forall flt c news olds g,
-  (c_fmt c = FGarbage -> no_fail flt) ->
   ~ In (g, New Garb) (disk (final (write_phase flt c (init c news olds)))).
 Proof.
-  intros flt c news olds g Hprem Hin.
+  intros flt c news olds g Hin.
   pose proof (phaseA_each flt c (c_files c) (init c news olds)) as P. cbn zeta in P.
   destruct (run_cases flt c news olds) as [[h [wA [EA E]]]|[wA [EA HB]]].
   - rewrite E in Hin. rewrite EA in P. cbn [final] in *. destruct P as [Hd _]. rewrite Hd in Hin. apply init_disk_old in Hin. discriminate.
@@ -428,21 +429,16 @@ Proof.
     destruct (Q g (New Garb) Hin') as [H|H].
     + rewrite Hd in H. apply init_disk_old in H. discriminate.
     + destruct H as [f [t [w0 [w1 [Hf [_ [Ht Hn]]]]]]]. injection Ht as <-.
-      destruct (c_fmt c) eqn:Em.
-      * apply new_code_mode in Hn; [congruence|rewrite Em; discriminate].
-      * apply new_code_mode in Hn; [congruence|rewrite Em; discriminate].
-      * specialize (Hprem eq_refl). apply new_code_nofail in Hn; [|exact Hprem].
-        destruct (each_prepare_complete flt c (c_files c) _ wA EA f Hf) as [t [wa [wb [H1 H2]]]].
-        apply new_code_nofail in H1; [|exact Hprem]. congruence.
+      apply new_code_mode in Hn. congruence.
 Qed.
 
-(* the premise is needed: a formatter that returns unparsable text AND fails once during phase A gets its garbage written *)
-Example garbage_double_fault_refuted :
-  exists flt c, In (0, New Garb) (disk (final (write_phase flt c (init c [] [])))).
-Proof.
-  exists (Some (1, Fail)), {| c_enforce := true; c_fmt := FGarbage; c_files := [{| f_id := 0; f_clean := true; f_import := false; f_exts := [] |}] |}.
-  vm_compute. left. reflexivity.
-Qed.
+(* the configuration for which the pinned tree wrote unparsable text (a formatter that returns it AND fails once during phase A;
+   the former garbage_double_fault_refuted): repaired *)
+Example garbage_double_fault_repaired :
+  let c := {| c_enforce := true; c_fmt := FGarbage; c_files := [{| f_id := 0; f_clean := true; f_import := false; f_exts := [] |}] |} in
+  let r := write_phase (Some (1, Fail)) c (init c [] []) in
+  disk (final r) = [(0, New Raw)] /\ halted r = None /\ reported (final r) = true.
+Proof. vm_compute. repeat split. Qed.
 
 (* an interruption inside SourceFile.rewrite leaves the test file as it was and a temporary file next to it *)
 Example crash_leaves_only_a_temporary_file :
@@ -503,8 +499,10 @@ Section Fmt.
 Variable flt : option (nat * fkind).
 Variable c : config.
 
+(* every formatter call that failed - the injected failure, or any call of a formatter that always fails / never prints the formatted
+   code - is counted as a problem *)
 Definition J (w : world) : Prop :=
-  forall n, flt = Some (n, Fail) -> nth_error (trace w) n = Some SFormat -> 1 <= problems w.
+  forall n, (flt = Some (n, Fail) \/ c_fmt c <> FOk) -> nth_error (trace w) n = Some SFormat -> 1 <= problems w.
 Definition Jp {A} (w : world) (r : res A) : Prop := J w -> J (final r).
 
 Lemma tick_false : forall s w w', tick flt s w = inl (false, w') -> forall n, flt = Some (n, Fail) -> n <> length (trace w).
@@ -535,17 +533,18 @@ Lemma Jp_raising : forall s w, s <> SFormat -> Jp w (raising flt s w).
 Proof.
   intros s w Hs. unfold raising. apply Jp_bind; [apply Jp_tick_other; exact Hs|]. intros b w1 _. destruct b; intros Hj; exact Hj.
 Qed.
-Lemma Jp_format_call : forall m w, Jp w (format_call flt m w).
+Lemma Jp_format_call : forall w, Jp w (format_call flt (c_fmt c) w).
 Proof.
-  intros m w Hj. unfold format_call. destruct (tick_spec flt SFormat w) as [[b [E _]]|E]; rewrite E; cbn [bind]; [|exact Hj].
+  intros w Hj. unfold format_call. destruct (tick_spec flt SFormat w) as [[b [E _]]|E]; rewrite E; cbn [bind]; [|exact Hj].
   assert (Hadd : J (add_problem (log SFormat w))) by (intros n _ _; cbn; lia).
   destruct b; cbn [final]; [exact Hadd|].
-  assert (Hlog : J (log SFormat w)).
-  { intros n Hn Ht. cbn [log trace problems] in *. pose proof (tick_false SFormat w _ E n Hn) as Hne.
-    destruct (Nat.lt_ge_cases n (length (trace w))) as [Hl|Hl].
-    - rewrite nth_error_app1 in Ht by exact Hl. exact (Hj n Hn Ht).
-    - rewrite nth_error_app2 in Ht by exact Hl. destruct (n - length (trace w)) as [|k] eqn:Ek; [lia|]. destruct k; discriminate. }
-  destruct m; cbn [final]; [exact Hlog|exact Hadd|exact Hlog].
+  destruct (c_fmt c) eqn:Em; cbn [final]; [|exact Hadd|exact Hadd].
+  intros n Hn Ht. cbn [log trace problems] in *.
+  destruct Hn as [Hn|Hn]; [|congruence].
+  pose proof (tick_false SFormat w _ E n Hn) as Hne.
+  destruct (Nat.lt_ge_cases n (length (trace w))) as [Hl|Hl].
+  - rewrite nth_error_app1 in Ht by exact Hl. exact (Hj n (or_introl Hn) Ht).
+  - rewrite nth_error_app2 in Ht by exact Hl. destruct (n - length (trace w)) as [|k] eqn:Ek; [lia|]. destruct k; discriminate.
 Qed.
 Lemma Jp_new_code : forall f w, Jp w (new_code flt c f w).
 Proof.
@@ -599,16 +598,16 @@ Proof.
     intros [] w1 _. apply Jp_bind; [apply Jp_each; apply Jp_rewrite|]. intros [] w2 _ Hj. exact (J_same w2 (report w2) eq_refl eq_refl Hj). }
   assert (Hj : J (final (write_phase flt c (init c news olds)))).
   { apply Hp. intros k _ Hk. cbn [init trace] in Hk. destruct k; discriminate. }
-  exact (Hj n Hn Ht).
+  exact (Hj n (or_introl Hn) Ht).
 Qed.
 
-(* how a run can be stopped: by the interruption, by a failing step that is not a formatter call, or by the SyntaxError of
-   unparsable formatter output.  (So a failing formatter call never stops the run.) *)
+(* how a run can be stopped: by the interruption, or by a failing step that is not a formatter call.  (So a formatter call that fails
+   or prints something else than the formatted code never stops the run.) *)
 Definition L {A} (r : res A) : Prop :=
   match r with
   | inl _ => True
   | inr (HCrash s, w') => exists n, flt = Some (n, Crash)
-  | inr (HRaise s, w') => s <> SFormat /\ ((exists n, flt = Some (n, Fail) /\ nth_error (trace w') n = Some s) \/ (s = SParse /\ c_fmt c = FGarbage))
+  | inr (HRaise s, w') => s <> SFormat /\ (exists n, flt = Some (n, Fail) /\ nth_error (trace w') n = Some s)
   end.
 Lemma L_bind : forall A B (m : res A) (k : A -> world -> res B), L m -> (forall a w1, m = inl (a, w1) -> L (k a w1)) -> L (bind m k).
 Proof. intros A B m k Hm Hk. destruct m as [[a w1]|[h w1]]; cbn [bind]; [exact (Hk a w1 eq_refl)|exact Hm]. Qed.
@@ -627,7 +626,7 @@ Lemma L_raising : forall s w, s <> SFormat -> L (raising flt s w).
 Proof.
   intros s w Hs. unfold raising. destruct (tick_cases s w) as [E|[[E Hf]|[E Hf]]]; rewrite E; cbn [bind L].
   - exact I.
-  - split; [exact Hs|]. left. exists (length (trace w)). split; [exact Hf|apply nth_error_log].
+  - split; [exact Hs|]. exists (length (trace w)). split; [exact Hf|apply nth_error_log].
   - exists (length (trace w)). exact Hf.
 Qed.
 Lemma L_format_call : forall m w, L (format_call flt m w).
@@ -648,7 +647,6 @@ Lemma L_persist_all : forall es w, L (persist_all flt es w).
 Proof.
   induction es as [|e r IH]; intros w; cbn [persist_all]; [exact I|]. apply L_bind; [apply L_raising; discriminate|]. intros [] w1 _. apply IH.
 Qed.
-(* unparsable text can only come out of new_code when the formatter returns garbage *)
 Lemma L_prepare : forall f w, L (prepare flt c f w).
 Proof.
   intros f w. unfold prepare.
@@ -657,9 +655,8 @@ Proof.
   - destruct t.
     + apply L_bind; [destruct (f_import f); [apply L_raising; discriminate|exact I]|intros [] w3 _; apply L_persist_all].
     + apply L_bind; [destruct (f_import f); [apply L_raising; discriminate|exact I]|intros [] w3 _; apply L_persist_all].
-    + cbn [L]. split; [discriminate|]. right. split; [reflexivity|].
-      destruct (c_fmt c) eqn:Em; [exfalso|exfalso|reflexivity]; apply new_code_mode in En; try congruence; rewrite Em; discriminate.
-  - cbn [L]. split; [discriminate|]. left. exists (length (trace w1)). split; [exact Hf|apply nth_error_log].
+    + exfalso. apply new_code_mode in En. congruence.
+  - cbn [L]. split; [discriminate|]. exists (length (trace w1)). split; [exact Hf|apply nth_error_log].
   - cbn [L]. exists (length (trace w1)). exact Hf.
 Qed.
 Lemma L_step_cleanup : forall s w (k : world -> res unit), s <> SFormat -> (forall w', L (k w')) ->
@@ -667,7 +664,7 @@ Lemma L_step_cleanup : forall s w (k : world -> res unit), s <> SFormat -> (fora
 Proof.
   intros s w k Hs Hk. destruct (tick_cases s w) as [E|[[E Hf]|[E Hf]]]; rewrite E; cbn [bind].
   - apply Hk.
-  - unfold cleanup_raise. cbn [L]. split; [exact Hs|]. left. exists (length (trace w)). split; [exact Hf|]. cbn [set_tmp trace]. apply nth_error_log.
+  - unfold cleanup_raise. cbn [L]. split; [exact Hs|]. exists (length (trace w)). split; [exact Hf|]. cbn [set_tmp trace]. apply nth_error_log.
   - cbn [L]. exists (length (trace w)). exact Hf.
 Qed.
 Lemma L_rewrite : forall f w, L (rewrite flt c f w).
@@ -688,32 +685,84 @@ Proof.
   apply L_bind; [apply L_each; apply L_rewrite|]. intros [] w2 _. exact I.
 Qed.
 
-(* C15 (4): a formatter failure (black raises, format-command exits non-zero) degrades: the run is not stopped, every
+(* C15 (4): a formatter failure (black raises, format-command exits non-zero or prints something else than the formatted code) degrades: the run is not stopped, every
    changed file gets a complete new content, and the problem is reported *)
 Theorem format_failure_degrades : forall news olds n,
-  c_fmt c <> FGarbage ->
   flt = Some (n, Fail) -> nth_error (trace (final (write_phase flt c (init c news olds)))) n = Some SFormat ->
   halted (write_phase flt c (init c news olds)) = None
   /\ reported (final (write_phase flt c (init c news olds))) = true
   /\ forall f, In f (c_files c) -> exists t, lookup (f_id f) (disk (final (write_phase flt c (init c news olds)))) = Some (New t) /\ t <> Garb.
 Proof.
-  intros news olds n Hm Hn Ht.
+  intros news olds n Hn Ht.
   assert (Hh : halted (write_phase flt c (init c news olds)) = None).
   { pose proof (L_write_phase (init c news olds)) as HL.
     destruct (write_phase flt c (init c news olds)) as [[[] w]|[h w]]; [reflexivity|]. exfalso. cbn [final] in Ht. cbn [L] in HL.
     destruct h as [s|s].
     - destruct HL as [k Hk]. congruence.
-    - destruct HL as [Hs [[k [Hk Hnth]]|[_ Hg]]]; [|exact (Hm Hg)]. rewrite Hn in Hk. injection Hk as <-. congruence. }
+    - destruct HL as [Hs [k [Hk Hnth]]]. rewrite Hn in Hk. injection Hk as <-. congruence. }
   split; [exact Hh|]. split.
   - pose proof (format_failure_counted news olds n Hn Ht) as Hp.
     destruct (run_cases flt c news olds) as [[h [wA [EA E]]]|[wA [EA [[h [wB [EB E]]]|[wB [EB E]]]]]]; rewrite E in *; cbn [halted final] in *; try discriminate.
     cbn [report reported problems] in *. apply Nat.ltb_lt. lia.
   - intros f Hf. destruct (completed_all_new flt c news olds Hh f Hf) as [t Hl]. exists t. split; [exact Hl|]. intros ->.
-    apply (no_garbage_written flt c news olds (f_id f)); [intros Hg; congruence|].
+    apply (no_garbage_written flt c news olds (f_id f)).
     clear - Hl. induction (disk (final (write_phase flt c (init c news olds)))) as [|[k y] l IH]; cbn [lookup] in Hl; [discriminate|].
     destruct (f_id f =? k) eqn:E; [apply Nat.eqb_eq in E; injection Hl as ->; left; congruence|right; exact (IH Hl)].
 Qed.
+(* C15 (4'): a formatter that misbehaves on EVERY call (always fails, or always prints with exit status 0 something that is not the
+   formatted code - unparsable text, nothing, another program) and no other fault: the run completes, every changed file gets the complete
+   unformatted new content, and if the formatter was called at all a problem is reported *)
+Theorem bad_formatter_degrades : forall news olds,
+  flt = None -> c_fmt c <> FOk ->
+  halted (write_phase flt c (init c news olds)) = None
+  /\ (forall f, In f (c_files c) -> lookup (f_id f) (disk (final (write_phase flt c (init c news olds)))) = Some (New Raw))
+  /\ (forall n, nth_error (trace (final (write_phase flt c (init c news olds)))) n = Some SFormat ->
+       reported (final (write_phase flt c (init c news olds))) = true).
+Proof.
+  intros news olds Hflt Hm.
+  assert (Hh : halted (write_phase flt c (init c news olds)) = None).
+  { pose proof (L_write_phase (init c news olds)) as HL.
+    destruct (write_phase flt c (init c news olds)) as [[[] w]|[h w]]; [reflexivity|]. exfalso. cbn [L] in HL.
+    destruct h as [s|s]; [destruct HL as [k Hk]|destruct HL as [_ [k [Hk _]]]]; congruence. }
+  assert (Hnf : no_fail flt) by (intros n Hn; congruence).
+  assert (Hraw : forall f, nc_pure c f = Raw).
+  { intros f. unfold nc_pure. destruct (c_fmt c); [congruence| |]; cbn [fres_of]; destruct (c_enforce c); reflexivity. }
+  split; [exact Hh|]. split.
+  - intros f Hf. destruct (completed_all_new flt c news olds Hh f Hf) as [t Hl]. rewrite Hl. f_equal. f_equal.
+    assert (Hin : In (f_id f, New t) (disk (final (write_phase flt c (init c news olds))))).
+    { clear - Hl. induction (disk (final (write_phase flt c (init c news olds)))) as [|[k y] l IH]; cbn [lookup] in Hl; [discriminate|].
+      destruct (f_id f =? k) eqn:E; [apply Nat.eqb_eq in E; injection Hl as ->; left; congruence|right; exact (IH Hl)]. }
+    pose proof (phaseA_each flt c (c_files c) (init c news olds)) as P. cbn zeta in P.
+    destruct (run_cases flt c news olds) as [[h [wA [EA E]]]|[wA [EA HB]]]; [rewrite E in Hh; discriminate|].
+    rewrite EA in P. cbn [final] in P. destruct P as [Hd _].
+    pose proof (phaseB_each flt c (c_files c) wA) as Q. cbn zeta in Q. destruct Q as [_ Q].
+    assert (Hin' : In (f_id f, New t) (disk (final (each (rewrite flt c) (c_files c) wA)))).
+    { destruct HB as [[h [wB [EB E]]]|[wB [EB E]]]; rewrite E in Hin; rewrite EB; cbn [final report disk] in *; exact Hin. }
+    destruct (Q (f_id f) (New t) Hin') as [H|H].
+    + rewrite Hd in H. apply init_disk_old in H. discriminate.
+    + destruct H as [f' [t' [w0 [w1 [_ [_ [Ht Hn]]]]]]]. injection Ht as <-.
+      apply new_code_nofail in Hn; [|exact Hnf]. rewrite Hn. apply Hraw.
+  - intros n Ht.
+    assert (Hp : Jp (init c news olds) (write_phase flt c (init c news olds))).
+    { unfold write_phase. apply Jp_bind; [apply Jp_each; apply Jp_prepare|].
+      intros [] w1 _. apply Jp_bind; [apply Jp_each; apply Jp_rewrite|]. intros [] w2 _ Hj. exact (J_same w2 (report w2) eq_refl eq_refl Hj). }
+    assert (Hj : J (final (write_phase flt c (init c news olds)))).
+    { apply Hp. intros k _ Hk. cbn [init trace] in Hk. destruct k; discriminate. }
+    pose proof (Hj n (or_intror Hm) Ht) as Hpb.
+    destruct (run_cases flt c news olds) as [[h [wA [EA E]]]|[wA [EA [[h [wB [EB E]]]|[wB [EB E]]]]]]; rewrite E in *; cbn [halted final] in *; try discriminate.
+    cbn [report reported problems] in *. apply Nat.ltb_lt. lia.
+Qed.
 End Fmt.
+
+(* non-vacuity of bad_formatter_degrades: a format-command that prints something else than the formatted code on every call *)
+Example bad_formatter_example :
+  let c := {| c_enforce := true; c_fmt := FGarbage;
+              c_files := [{| f_id := 0; f_clean := false; f_import := false; f_exts := [] |};
+                          {| f_id := 1; f_clean := true; f_import := true; f_exts := [7] |}] |} in
+  let r := write_phase None c (init c [7] []) in
+  nth_error (trace (final r)) 1 = Some SFormat /\ halted r = None /\ reported (final r) = true /\
+  disk (final r) = [(0, New Raw); (1, New Raw)] /\ store (final r) = [(7, false)].
+Proof. vm_compute. repeat split. Qed.
 
 (* non-vacuity: a concrete run with two files and an external in which the formatter fails once during phase B *)
 Example format_failure_example :
